@@ -237,7 +237,60 @@ theorem mvg_new_ok_iff (mu : Vec α) (cov : Mat α) :
     exact ⟨_, h4 l a b hl⟩
 
 -- @site MvGaussian::set_cov
-/-- `set_cov`: ladder (dimension mismatch is tested BEFORE squareness, the other way round in `new`) -/
+/-- `set_cov` as a state transformer (object after the call, result): ladder.  On every error path the object after the
+    call IS the object before the call; on success the cache is the one of the new matrix.
+    (Dimension mismatch is tested BEFORE squareness, the other way round in `new`.) -/
+theorem mvg_set_cov_st_ladder (g : MvGaussian α) (cov : Mat α) :
+    (g.mu.length ≠ nrows cov →
+        g.set_cov_st cov
+          = (g, .error (Err.mk "MuCovDimensionMismatch" [RealLike.ofNatR g.mu.length, RealLike.ofNatR (nrows cov)])))
+    ∧ (g.mu.length = nrows cov → nrows cov ≠ ncols cov →
+        g.set_cov_st cov = (g, .error (Err.mk "CovNotSquare" [RealLike.ofNatR (nrows cov), RealLike.ofNatR (ncols cov)])))
+    ∧ (g.mu.length = nrows cov → nrows cov = ncols cov → cholesky cov = none →
+        g.set_cov_st cov = (g, .error (Err.mk "CovNotPositiveSemiDefinite" [])))
+    ∧ (∀ l, g.mu.length = nrows cov → nrows cov = ncols cov → cholesky cov = some l →
+        g.set_cov_st cov = (⟨g.mu, cov, ⟨l, cholInverse l⟩⟩, .ok ())) := by
+  refine ⟨fun h => ?_, fun h1 h2 => ?_, fun h1 h2 h3 => ?_, fun l h1 h2 h3 => ?_⟩
+  all_goals
+    simp only [MvGaussian.set_cov_st, MvgCache.from_cov]
+    split_ifs <;> first | rfl | (exfalso; omega) | simp_all
+
+-- @site MvGaussian::set_cov
+/-- a FAILING `set_cov` leaves the object unchanged (mu, cov and cache): validation precedes every assignment -/
+theorem mvg_set_cov_err_unchanged (g : MvGaussian α) (cov : Mat α) (e : Err α)
+    (h : (g.set_cov_st cov).2 = .error e) : (g.set_cov_st cov).1 = g := by
+  obtain ⟨h1, h2, h3, h4⟩ := mvg_set_cov_st_ladder g cov
+  by_cases a : g.mu.length = nrows cov
+  · by_cases b : nrows cov = ncols cov
+    · cases c : cholesky cov with
+      | none => rw [h3 a b c]
+      | some l => rw [h4 l a b c] at h; cases h
+    · rw [h2 a b]
+  · rw [h1 a]
+
+-- @site MvGaussian::set_mu
+/-- `set_mu` as a state transformer: ladder -/
+theorem mvg_set_mu_st_ladder (g : MvGaussian α) (mu : Vec α) :
+    (mu.length ≠ nrows g.cov →
+        g.set_mu_st mu
+          = (g, .error (Err.mk "MuCovDimensionMismatch" [RealLike.ofNatR mu.length, RealLike.ofNatR (nrows g.cov)])))
+    ∧ (mu.length = nrows g.cov → g.set_mu_st mu = (⟨mu, g.cov, g.cache⟩, .ok ())) := by
+  refine ⟨fun h => ?_, fun h => ?_⟩
+  all_goals
+    simp only [MvGaussian.set_mu_st]
+    split_ifs <;> first | rfl | (exfalso; omega)
+
+-- @site MvGaussian::set_mu
+/-- a FAILING `set_mu` leaves the object unchanged -/
+theorem mvg_set_mu_err_unchanged (g : MvGaussian α) (mu : Vec α) (e : Err α)
+    (h : (g.set_mu_st mu).2 = .error e) : (g.set_mu_st mu).1 = g := by
+  obtain ⟨h1, h2⟩ := mvg_set_mu_st_ladder g mu
+  by_cases a : mu.length = nrows g.cov
+  · rw [h2 a] at h; cases h
+  · rw [h1 a]
+
+-- @site MvGaussian::set_cov
+/-- `set_cov` in the `Except` convention: ladder -/
 theorem mvg_set_cov_ladder (g : MvGaussian α) (cov : Mat α) :
     (g.mu.length ≠ nrows cov →
         g.set_cov cov = .error (Err.mk "MuCovDimensionMismatch" [RealLike.ofNatR g.mu.length, RealLike.ofNatR (nrows cov)]))
@@ -247,10 +300,12 @@ theorem mvg_set_cov_ladder (g : MvGaussian α) (cov : Mat α) :
         g.set_cov cov = .error (Err.mk "CovNotPositiveSemiDefinite" []))
     ∧ (∀ l, g.mu.length = nrows cov → nrows cov = ncols cov → cholesky cov = some l →
         g.set_cov cov = .ok ⟨g.mu, cov, ⟨l, cholInverse l⟩⟩) := by
-  refine ⟨fun h => ?_, fun h1 h2 => ?_, fun h1 h2 h3 => ?_, fun l h1 h2 h3 => ?_⟩
-  all_goals
-    simp only [MvGaussian.set_cov, MvgCache.from_cov]
-    split_ifs <;> first | rfl | (exfalso; omega) | simp_all
+  obtain ⟨h1, h2, h3, h4⟩ := mvg_set_cov_st_ladder g cov
+  refine ⟨fun a => ?_, fun a b => ?_, fun a b c => ?_, fun l a b c => ?_⟩
+  · simp only [MvGaussian.set_cov, h1 a]
+  · simp only [MvGaussian.set_cov, h2 a b]
+  · simp only [MvGaussian.set_cov, h3 a b c]
+  · simp only [MvGaussian.set_cov, h4 l a b c]
 
 -- @site MvGaussian::set_mu
 /-- `set_mu`: ladder -/
@@ -258,10 +313,10 @@ theorem mvg_set_mu_ladder (g : MvGaussian α) (mu : Vec α) :
     (mu.length ≠ nrows g.cov →
         g.set_mu mu = .error (Err.mk "MuCovDimensionMismatch" [RealLike.ofNatR mu.length, RealLike.ofNatR (nrows g.cov)]))
     ∧ (mu.length = nrows g.cov → g.set_mu mu = .ok ⟨mu, g.cov, g.cache⟩) := by
-  refine ⟨fun h => ?_, fun h => ?_⟩
-  all_goals
-    simp only [MvGaussian.set_mu]
-    split_ifs <;> first | rfl | (exfalso; omega)
+  obtain ⟨h1, h2⟩ := mvg_set_mu_st_ladder g mu
+  refine ⟨fun a => ?_, fun a => ?_⟩
+  · simp only [MvGaussian.set_mu, h1 a]
+  · simp only [MvGaussian.set_mu, h2 a]
 
 /-! ### cache coherence (C09-style): after ANY history of setters the object is the freshly constructed one -/
 
@@ -311,19 +366,41 @@ theorem mvg_set_mu_preserves (g g' : MvGaussian α) (mu : Vec α) (hg : MvgWF g)
     exact ⟨rfl, rfl, rfl, p, a, q⟩
   · rw [h1 a] at h; cases h
 
-/-- a setter call: `set_mu v` or `set_cov m`; a failing call leaves the object unchanged (`Err` returned before any write) -/
+/-- a setter call: `set_mu v` or `set_cov m`; `apply` is the object AFTER the call, whether it succeeded or failed
+    (first component of the state transformers) -/
 inductive MvgOp (α : Type) where
   | setMu (mu : Vec α)
   | setCov (cov : Mat α)
 
 def MvgOp.apply (g : MvGaussian α) : MvgOp α → MvGaussian α
-  | .setMu mu => match g.set_mu mu with | .ok g' => g' | .error _ => g
-  | .setCov cov => match g.set_cov cov with | .ok g' => g' | .error _ => g
+  | .setMu mu => (g.set_mu_st mu).1
+  | .setCov cov => (g.set_cov_st cov).1
+
+-- @site MvGaussian::set_cov
+/-- one setter call (successful or failing) preserves well-formedness -/
+theorem mvg_op_wf (g : MvGaussian α) (hg : MvgWF g) (op : MvgOp α) : MvgWF (op.apply g) := by
+  cases op with
+  | setMu mu =>
+    simp only [MvgOp.apply]
+    obtain ⟨h1, h2⟩ := mvg_set_mu_st_ladder g mu
+    by_cases a : mu.length = nrows g.cov
+    · rw [h2 a]; obtain ⟨p, _, q⟩ := hg; exact ⟨p, a, q⟩
+    · rw [h1 a]; exact hg
+  | setCov cov =>
+    simp only [MvgOp.apply]
+    obtain ⟨h1, h2, h3, h4⟩ := mvg_set_cov_st_ladder g cov
+    by_cases a : g.mu.length = nrows cov
+    · by_cases b : nrows cov = ncols cov
+      · cases c : cholesky cov with
+        | none => rw [h3 a b c]; exact hg
+        | some l => rw [h4 l a b c]; exact ⟨b, a, l, c, rfl⟩
+      · rw [h2 a b]; exact hg
+    · rw [h1 a]; exact hg
 
 -- @site MvGaussian::set_cov
 /-- history independence: after any sequence of (successful or failing) `set_mu` / `set_cov` calls the object equals
-    `MvGaussian::new` of its current parameters — every query (`ln_f`, `entropy`, `draw`, `ln_f_stat`) therefore answers
-    as the fresh object does -/
+    `MvGaussian::new` of its current parameters — every query (`ln_f`, `entropy`, `draw`, `ln_f_stat`, `cov()`, `==`)
+    therefore answers as the fresh object does -/
 theorem mvg_history_fresh (g : MvGaussian α) (hg : MvgWF g) (ops : List (MvgOp α)) :
     let g' := ops.foldl MvgOp.apply g
     MvGaussian.new g'.mu g'.cov = .ok g' := by
@@ -332,20 +409,7 @@ theorem mvg_history_fresh (g : MvGaussian α) (hg : MvgWF g) (ops : List (MvgOp 
   show MvgWF (ops.foldl MvgOp.apply g)
   induction ops generalizing g with
   | nil => exact hg
-  | cons op ops ih =>
-    rw [List.foldl_cons]
-    apply ih
-    cases op with
-    | setMu mu =>
-      simp only [MvgOp.apply]
-      cases h : g.set_mu mu with
-      | ok g1 => exact (mvg_set_mu_preserves g g1 mu hg h).2.2.2
-      | error e => exact hg
-    | setCov cov =>
-      simp only [MvgOp.apply]
-      cases h : g.set_cov cov with
-      | ok g1 => exact (mvg_set_cov_refreshes g g1 cov hg h).2.2.1
-      | error e => exact hg
+  | cons op ops ih => rw [List.foldl_cons]; exact ih _ (mvg_op_wf g hg op)
 
 end Validation
 
@@ -491,6 +555,54 @@ theorem exec_ln_f_stat_eq_sum (g : AMvg d) (h : g.Valid) (xs : List (V d)) :
   congr 1
   exact List.map_congr_left fun x _ => (exec_ln_f g x).symm
 
+/-! ## the Cholesky constructors, `emit_params` / `from_params` -/
+
+section Ctors
+variable {α : Type} [RealLike α]
+
+-- @site MvGaussian::new_cholesky_unchecked
+/-- both Cholesky constructors report the covariance `l() · l()ᵀ` and carry the cache of the supplied factor: whenever the
+    checked one succeeds it returns exactly the object of the unchecked one -/
+theorem mvg_new_cholesky_agree (mu : Vec α) (l : Mat α) (g : MvGaussian α) (h : MvGaussian.new_cholesky mu l = .ok g) :
+    g = MvGaussian.new_cholesky_unchecked mu l := by
+  simp only [MvGaussian.new_cholesky] at h
+  split_ifs at h
+  cases h
+  rfl
+
+-- @site MvGaussian::new_cholesky
+/-- `new_cholesky`: ladder -/
+theorem mvg_new_cholesky_ladder (mu : Vec α) (l : Mat α) :
+    (mu.length ≠ nrows (matMul l (Hand.Mvg.transpose l)) →
+        MvGaussian.new_cholesky mu l = .error (Err.mk "MuCovDimensionMismatch"
+          [RealLike.ofNatR mu.length, RealLike.ofNatR (nrows (matMul l (Hand.Mvg.transpose l)))]))
+    ∧ (mu.length = nrows (matMul l (Hand.Mvg.transpose l)) →
+        MvGaussian.new_cholesky mu l = .ok (MvGaussian.new_cholesky_unchecked mu l)) := by
+  refine ⟨fun h => ?_, fun h => ?_⟩
+  all_goals
+    simp only [MvGaussian.new_cholesky]
+    split_ifs <;> first | rfl | (exfalso; omega)
+
+-- @site MvGaussian::from_params
+/-- `from_params(emit_params(g)) = g` for every well-formed object (the cache is recomputed from the same matrix) -/
+theorem mvg_params_roundtrip (g : MvGaussian α) (hg : MvgWF g) :
+    MvGaussian.from_params g.emit_params = .ok g := by
+  obtain ⟨_, _, l, hl, hc⟩ := hg
+  simp only [MvGaussian.from_params, MvGaussian.emit_params, MvGaussian.new_unchecked, MvgCache.from_cov, hl]
+  cases g; simp_all
+
+end Ctors
+
+-- @site MvgCache::cov
+/-- the covariance rebuilt from the cached factor IS the covariance: on the list encoding of a valid object,
+    `new_cholesky_unchecked(μ, chol).cov() = Σ` (entries above the diagonal of the factor must be zero for this) -/
+theorem exec_new_cholesky_cov (g : AMvg d) (h : g.Valid) :
+    (MvGaussian.new_cholesky_unchecked (toVec g.mu) (toMat g.L)).cov = toMat g.cov
+    ∧ (MvGaussian.new_cholesky_unchecked (toVec g.mu) (toMat g.L)).mu = toVec g.mu := by
+  refine ⟨?_, rfl⟩
+  simp only [MvGaussian.new_cholesky_unchecked, MvgCache.cov, MvgCache.from_chol, transpose_toMat, matMul_toMat, h.chol]
+
+example : ∃ g : AMvg 2, g.Valid := ⟨exMvg, exMvg_valid⟩
 end C15
 
 #print axioms C15.mvg_ln_f_eq
@@ -509,12 +621,17 @@ end C15
 #print axioms C15.mvg_ln_f_stat_new
 #print axioms C15.mvg_new_ladder
 #print axioms C15.mvg_new_ok_iff
+#print axioms C15.mvg_set_cov_st_ladder
+#print axioms C15.mvg_set_cov_err_unchanged
+#print axioms C15.mvg_set_mu_st_ladder
+#print axioms C15.mvg_set_mu_err_unchanged
 #print axioms C15.mvg_set_cov_ladder
 #print axioms C15.mvg_set_mu_ladder
 #print axioms C15.mvg_new_wf
 #print axioms C15.mvg_wf_eq_new
 #print axioms C15.mvg_set_cov_refreshes
 #print axioms C15.mvg_set_mu_preserves
+#print axioms C15.mvg_op_wf
 #print axioms C15.mvg_history_fresh
 #print axioms C15.mvg_cache_facts_sound
 #print axioms C15.mvg_new_vs_set_cov_order
@@ -533,3 +650,7 @@ end C15
 #print axioms C15.cholesky_first_pivot
 #print axioms C15.mvg_new_1d
 #print axioms C15.mvg_new_upper_triangle_counterexample
+#print axioms C15.mvg_new_cholesky_agree
+#print axioms C15.mvg_new_cholesky_ladder
+#print axioms C15.mvg_params_roundtrip
+#print axioms C15.exec_new_cholesky_cov
